@@ -1,4 +1,4 @@
-import PPLV.COTree.Rebalance
+import PPLV.COTree.RowOnTree
 
 /-! native driver `pplv_c16reb`: replays the layout journal of `harness/c16_rows.cc --reb 1` on the
 code-shaped model `PPLV/COTree/Rebalance.lean`.  For every operation the model runs from the
@@ -75,6 +75,20 @@ def classifyIns (t : Tree) (key : Nat) : String :=
       if !itr.isLeaf then s!"ins:{g}child"
       else s!"ins:{g}rebalance {rebalanceInfo { t with size := t.size + 1 } itr}"
 
+/-- how the hint relates to the key: `end`, on the key, adjacent used slot, or `far` (stale) with
+    the candidate `insert_precise` is called on (c1 = bisect_near's slot or c2 = the other neighbour) -/
+def classifyHint (t : Tree) (hint : Hint) (key : Nat) : String :=
+  if t.size = 0 then "hint:empty"
+  else match hint with
+  | none => "hint:end"
+  | some h =>
+    let c1 := t.toHoleArray.bisectNear h key
+    let rel := if h = c1 then "at-candidate" else if t.keyAt h < key then "stale-below" else "stale-above"
+    if t.keyAt c1 = key then s!"hint:{rel}:found"
+    else
+      let n := hintNode t c1 key
+      s!"hint:{rel}:{if n.i = c1 then "c1" else "c2"}"
+
 def classifyEra (t : Tree) (key : Nat) : String :=
   if t.size = 0 then "era:empty"
   else
@@ -96,6 +110,7 @@ def classifyEra (t : Tree) (key : Nat) : String :=
 
 structure St where
   prev : Tree := init 0
+  prevRow : TRow := ⟨0, init 0⟩
   nOk : Nat := 0
   nBad : Nat := 0
 
@@ -105,7 +120,96 @@ def bad (id obligation detail : String) : M Unit := do
   modify fun s => { s with nBad := s.nBad + 1 }
   IO.println s!"MISMATCH {id} {obligation} {detail}"
 
+/-- key the iterator at slot `p` points to -/
+def slotKeyStr (t : Tree) : Option Nat → String
+  | none => "end"
+  | some p => toString (t.keyAt p)
+
+def parseHint (h : String) : Hint := if h == "end" then none else some (nat! h)
+
+/-- one `W` line: a `Sparse_Row` operation replayed on `TRow` (layout) and judged against `RowOp.sparse` (map) -/
+def handleRow (line : String) : M Unit := do
+  let secs := (line.splitOn "|").map toks
+  match secs with
+  | [head, ret, szS, st, sent, cellsT] =>
+    match head with
+    | "W" :: id :: op :: args =>
+      let retS := ret.headD "-"
+      let rowSize := nat! (szS.headD "0")
+      let (rs, md, sz, okFlag) := match st with
+        | [a, b, c, d] => (nat! a, nat! b, nat! c, d)
+        | _ => (0, 0, 0, "?")
+      let realT : Tree :=
+        if rs = 0 then ⟨0, md, sz, #[]⟩
+        else
+          let (s0, sN) := match sent with | [a, b] => (nat! a, nat! b) | _ => (1, 1)
+          ⟨rs, md, sz, (#[(some (s0, 0) : Cell)] ++ parseCells cellsT).push (some (sN, 0))⟩
+      let real : TRow := ⟨rowSize, realT⟩
+      let s ← get
+      let prev := s.prevRow
+      let pt := prev.tree
+      let keep : Option TRow := some prev
+      -- model result, model's returned value, the abstract operation (none = observation only), expected returned value
+      let (model, modelRet, absOp, wantRet) : Option TRow × String × Option RowOp × String :=
+        match op, args with
+        | "new", [n] => (some ⟨nat! n, init 0⟩, "-", none, "-")
+        | "set", [i, x] =>
+          let r := prev.insert (nat! i) (int! x)
+          (r.map (·.1), (match r with | some (q, it) => toString (q.tree.keyAt it.i) | none => "?"), some (.set (nat! i) (int! x)), i)
+        | "seth", [h, i, x] =>
+          let r := prev.insertHint (parseHint h) (nat! i) (int! x)
+          (r.map (·.1), (match r with | some (q, it) => toString (q.tree.keyAt it.i) | none => "?"), some (.set (nat! i) (int! x)), i)
+        | "ins0", [i] =>
+          let r := prev.insert0 (nat! i)
+          (r.map (·.1), (match r with | some (q, it) => toString (q.tree.keyAt it.i) | none => "?"), some (.touch (nat! i)), i)
+        | "ins0h", [h, i] =>
+          let r := prev.insert0Hint (parseHint h) (nat! i)
+          (r.map (·.1), (match r with | some (q, it) => toString (q.tree.keyAt it.i) | none => "?"), some (.touch (nat! i)), i)
+        | "reset", [i] => (prev.reset (nat! i), "-", some (.reset (nat! i)), "-")
+        | "resetit", [p] =>
+          let k := pt.keyAt (nat! p)
+          let r := prev.resetAt (nat! p)
+          (r.map (·.1), (match r with | some (q, nx) => slotKeyStr q.tree nx | none => "?"), some (.reset k),
+            keyStr (SMap.next pt.toList k))
+        | "resetafter", [i] => (prev.resetAfter (nat! i), "-", some (.resetFrom (nat! i)), "-")
+        | "del", [i] => (prev.deleteElementAndShift (nat! i), "-", some (.deleteShift (nat! i)), "-")
+        | "addz", [n, i] => (prev.addZeroesAndShift (nat! n) (nat! i), "-", some (.shiftUp (nat! n) (nat! i)), "-")
+        | "swapc", [i, j] => (prev.swapCoefficients (nat! i) (nat! j), "-", some (.swap (nat! i) (nat! j)), "-")
+        | "find", [h, i] =>
+          (keep, slotKeyStr pt (prev.find (parseHint h) (nat! i)), none,
+            if SMap.stored pt.toList (nat! i) then i else "end")
+        | "lb", [h, i] =>
+          (keep, slotKeyStr pt (prev.lowerBound (parseHint h) (nat! i)), none, keyStr (SMap.lowerBound pt.toList (nat! i)))
+        | _, _ => (none, "?", none, "?")
+      let mut good := true
+      let opS := s!"{op} {" ".intercalate args}"
+      -- 1. the property on the real output
+      if okFlag != "1" then good := false; bad id "invariant" s!"CO_Tree::OK() is false after {opS} | {showTree realT}"
+      if !realT.okB then good := false; bad id "invariant" s!"real tree breaks the invariant after {opS} | {showTree realT}"
+      let wantRow : SRow := match op, absOp with
+        | "new", _ => ⟨rowSize, []⟩
+        | _, some f => f.sparse prev.toSRow
+        | _, none => prev.toSRow
+      if real.toSRow != wantRow then
+        good := false; bad id "contents" s!"{opS}: real row size={rowSize} [{showMap realT.toList}] expected size={wantRow.size} [{showMap wantRow.m}]"
+      if retS != wantRet then good := false; bad id "retmap" s!"{opS}: returned {retS}, the map says {wantRet}"
+      -- 2. identical layout
+      match model with
+      | none => good := false; bad id "layout" s!"model loop ran out of fuel on {opS} from {showTree pt}"
+      | some m =>
+        if m.size != real.size || m.tree != real.tree then
+          good := false
+          bad id "layout" s!"{opS}: row size model={m.size} real={real.size}; {firstDiff m.tree realT} | model {showTree m.tree} | real {showTree realT}"
+        if modelRet != retS then good := false; bad id "ret" s!"{opS}: model returns {modelRet}, library {retS}"
+      if good then
+        modify fun s => { s with nOk := s.nOk + 1 }
+        IO.println s!"ok {id} row:{op} rs={pt.rs}>{rs}"
+      modify fun s => { s with prevRow := real }
+    | _ => pure ()
+  | _ => pure ()
+
 def handle (line : String) : M Unit := do
+  if line.startsWith "W " then handleRow line; return
   let secs := (line.splitOn "|").map toks
   match secs with
   | [head, ret, st, sent, cellsT] =>
@@ -131,6 +235,18 @@ def handle (line : String) : M Unit := do
           let r := insert prev k v
           (r.map (·.1), (match r with | some (t, it) => toString (t.keyAt it.i) | none => "?"),
             SMap.set prevList k v, toString k, classifyIns prev k)
+        | "insh", [h, k, v] =>
+          let k := nat! k; let v := int! v
+          let hint : Hint := if h == "end" then none else some (nat! h)
+          let r := insertHinted prev hint k v
+          (r.map (·.1), (match r with | some (t, it) => toString (t.keyAt it.i) | none => "?"),
+            SMap.set prevList k v, toString k, classifyHint prev hint k ++ " " ++ classifyIns prev k)
+        | "insh0", [h, k] =>
+          let k := nat! k
+          let hint : Hint := if h == "end" then none else some (nat! h)
+          let r := insertHinted0 prev hint k
+          (r.map (·.1), (match r with | some (t, it) => toString (t.keyAt it.i) | none => "?"),
+            SMap.touch prevList k, toString k, classifyHint prev hint k ++ "0 " ++ classifyIns prev k)
         | "era", [k] =>
           let k := nat! k
           let r := erase prev k
@@ -166,7 +282,7 @@ def handle (line : String) : M Unit := do
   | _ =>
     let t := toks line
     match t with
-    | "H" :: _ => modify fun s => { s with prev := init 0 }
+    | "H" :: _ => modify fun s => { s with prev := init 0, prevRow := ⟨0, init 0⟩ }
     | "crash" :: rest => bad "crash" "crash" (" ".intercalate rest)
     | _ => pure ()
 
